@@ -38,7 +38,7 @@ type vTable struct {
 func (t *vTable) swapGeneration(from, to, n int) {
 	t.mu.Lock()
 	defer t.mu.Unlock()
-	for k := 0; k < n; k++ {
+	for k := n - 1; k >= 0; k-- { // against the direction of a directory walk, so that a concurrent walk meets the change
 		os.WriteFile(filepath.Join(t.root, fmt.Sprintf("gen%d-%04d.bin", to, k)), []byte("x"), 0o644)
 		os.Remove(filepath.Join(t.root, fmt.Sprintf("gen%d-%04d.bin", from, k)))
 	}
